@@ -304,29 +304,39 @@ theorem allowed_write_is_write (ansi : Bool) (w : Nat) (g : GState) (i : Nat) (l
   have hp : passes g.cfg i f = true := (Clikit.Props.C10.mayWrite_iff _ _ _).mpr h
   refine ⟨?_, ?_⟩ <;> simp only [stepG, hp, if_true]
 
-/-- **A gated history is the history without the suppressed calls.**  For every calm history (no
-`overwrite` / `clear` on a section while it is quiet and still holds lines) the sections and the stream are
-those of the indented history `gflat` of it: suppressed writes and the calls on quiet sections left out. -/
-theorem gate_simulates (ansi : Bool) (w : Nat) (gops : List GOp)
-    (hc : calmG ansi w { st := { secs := [], ind := [] }, cfg := [] } gops = true) :
+/-- **A call without flags on a quiet section is no operation at all** (D41 repaired): `overwrite`, `clear`,
+`clear(n)` and `write_line(text)` on a section that is quiet leave the sections - contents and row counters -
+as they are and write nothing, so what the section shows stays what it holds. -/
+theorem quiet_op_noop (ansi : Bool) (w : Nat) (g : GState) (o : Op)
+    (h : (cfgOf g.cfg (target o)).quiet = true) :
+    stepG ansi w g (.op o) = (g, []) := by
+  have hp : passes g.cfg (target o) none = false := by
+    unfold passes
+    rw [h]
+    exact Clikit.Props.C10.quiet_writes_nothing _ _
+  simp only [stepG, hp, Bool.false_eq_true, if_false]
+
+/-- **A gated history is the history without the suppressed calls.**  For EVERY history the sections and
+the stream are those of the indented history `gflat` of it: suppressed writes and the calls on quiet
+sections left out. -/
+theorem gate_simulates (ansi : Bool) (w : Nat) (gops : List GOp) :
     (runG ansi w { st := { secs := [], ind := [] }, cfg := [] } gops).1.st
       = (runI ansi w { secs := [], ind := [] } (gflat [] gops)).1 ∧
     (runG ansi w { st := { secs := [], ind := [] }, cfg := [] } gops).2
       = (runI ansi w { secs := [], ind := [] } (gflat [] gops)).2 :=
-  runG_sim ansi w gops _ hc
+  runG_sim ansi w gops _
 
-/-- **The screen shows the stacked contents under every verbosity.**  `screen_refines` for every calm
+/-- **The screen shows the stacked contents under every verbosity.**  `screen_refines` for EVERY
 history with flagged writes, per-section quiet and verbosity (changed at any time) and indentation: the
 screen is `above` followed by the contents of all sections in creation order - a suppressed write neither
 shows nor counts -, the cursor is below, the row counters are exact. -/
-theorem screen_refines_gated (w : Nat) (hw : 1 ≤ w) (gops : List GOp) (above : List Str)
-    (hc : calmG true w { st := { secs := [], ind := [] }, cfg := [] } gops = true) :
+theorem screen_refines_gated (w : Nat) (hw : 1 ≤ w) (gops : List GOp) (above : List Str) :
     let r := runG true w { st := { secs := [], ind := [] }, cfg := [] } gops
     let scr := execs w { rows := above, cur := above.length } r.2
     scr.rows = above ++ stacked w r.1.st.secs ∧
     scr.cur = scr.rows.length ∧
     ∀ s ∈ r.1.st.secs, s.rows = (linesRows w s.content).length := by
-  have h := gate_simulates true w gops hc
+  have h := gate_simulates true w gops
   simp only [h.1, h.2]
   exact screen_refines_indented w hw (gflat [] gops) above
 
@@ -345,8 +355,13 @@ theorem gate_free_is_indented (ansi : Bool) (w : Nat) (ops : List Op) : ∀ (g :
       cases hc : g.cfg[target o]? with
       | none => rfl
       | some c => exact hq c (List.mem_of_getElem? hc)
+    have hp : passes g.cfg (target o) none = true := by
+      unfold passes
+      rw [h0]
+      have hl : Gate.lowest none = 0 := by decide
+      exact (Clikit.Props.C10.mayWrite_iff _ _ _).mpr ⟨rfl, by rw [hl]; exact Nat.zero_le _⟩
     have h := ih { g with st := (stepIO ansi w g.st (.op o)).1 } hq
-    simp only [List.map_cons, runG, stepG, h0, Bool.false_eq_true, if_false, runI]
+    simp only [List.map_cons, runG, stepG, hp, if_true, runI]
     exact ⟨h.1, by rw [h.2]⟩
 
 /-! ## non-vacuity -/
@@ -404,20 +419,49 @@ example : (runG true 10 g0 demoG).2 =
 example : gflat [] demoG = [.create 0, .create 0, .op (.write 1 ["b1".toList]), .op (.write 0 ["a1".toList]),
     .op (.write 1 ["v2".toList])] := by decide
 
-example : calmG true 10 g0 demoG = true := by decide
-example := gate_simulates true 10 demoG (by decide)
-example := screen_refines_gated 10 (by decide) demoG ["$ run".toList] (by decide)
+example := gate_simulates true 10 demoG
+example := screen_refines_gated 10 (by decide) demoG ["$ run".toList]
 example := suppressed_write_noop true 10 (runG true 10 g0 (demoG.take 3)).1 1 ["vv".toList] (some 1)
   (Or.inr (by decide))
 example := allowed_write_is_write true 10 (runG true 10 g0 (demoG.take 6)).1 1 ["v2".toList] (some 1)
   (by decide)
 
-/-- the hypothesis `calmG` is not constantly true, and what it excludes: a section that shows a line is made
-quiet and cleared - its content is dropped (`quietSecs`), no byte is written, the line stays on the screen -/
+/-- a section that shows a line is made quiet and cleared: nothing happens (it keeps what it shows); after
+`set_quiet(False)` the next line goes below -/
+private def demoQ : List GOp :=
+  [.create 0 false 0, .write 0 ["a1".toList] none, .quiet 0 true, .op (.clear 0), .op (.overwrite 0 ["zz".toList]),
+   .quiet 0 false, .write 0 ["a2".toList] none]
+
+example : (runG true 10 g0 demoQ).2 = [.print "a1".toList, .print "a2".toList] ∧
+    (runG true 10 g0 demoQ).1.st.secs = [{ content := ["a1".toList, "a2".toList], rows := 2 }] := by decide
+example := quiet_op_noop true 10 (runG true 10 g0 (demoQ.take 3)).1 (.clear 0) (by decide)
+
+/-- **D41 as it was before the repair** (`quietSecs`: `clear` on a quiet section dropped the content although
+every stream write was gated).  (1) `a1` shown, quiet, `clear()`, not quiet, `a2`: the section held `a2` only,
+the screen showed `a1`, `a2`.  (2) two sections showing `a1` / `b1`; the newer one quiet, `overwrite`: it held
+nothing and counted 0 rows, so the next write of the older section did not move up at all - the screen showed
+`a1`, `b1`, `a2` for the contents `a1`, `a2` / nothing.  With the rule as it is now (`demoQ`, and below) the
+quiet calls change nothing and the screen is the stacked contents. -/
 example :
-    let h : List GOp := [.create 0 false 0, .write 0 ["a1".toList] none, .quiet 0 true, .op (.clear 0)]
-    calmG true 10 g0 h = false ∧ (runG true 10 g0 h).2 = [.print "a1".toList] ∧
-    (runG true 10 g0 h).1.st.secs = [{ content := [], rows := 0 }] := by decide
+    let a : Sec := { content := ["a1".toList], rows := 1 }
+    let b : Sec := { content := ["b1".toList], rows := 1 }
+    -- (1)
+    quietSecs 10 [a] (.clear 0) = [{ content := [], rows := 0 }] ∧
+    (writeSec 10 [] { content := [], rows := 0 } ["a2".toList]) =
+      ({ content := ["a2".toList], rows := 1 }, [.print "a2".toList]) ∧
+    (execs 10 { rows := ["a1".toList], cur := 1 } [.print "a2".toList]).rows = ["a1".toList, "a2".toList] ∧
+    -- (2)
+    quietSecs 10 [b, a] (.overwrite 1 ["b2".toList]) = [{ content := [], rows := 0 }, a] ∧
+    (writeSec 10 [{ content := [], rows := 0 }] a ["a2".toList]).2 = [.print "a2".toList] ∧
+    (execs 10 { rows := ["a1".toList, "b1".toList], cur := 2 } [.print "a2".toList]).rows
+      = ["a1".toList, "b1".toList, "a2".toList] ∧
+    stacked 10 [{ content := [], rows := 0 }, { content := ["a1".toList, "a2".toList], rows := 2 }]
+      = ["a1".toList, "a2".toList] ∧
+    -- as it is now
+    (runG true 10 g0 [.create 0 false 0, .create 0 false 0, .write 0 ["a1".toList] none, .write 1 ["b1".toList] none,
+        .quiet 1 true, .op (.overwrite 1 ["b2".toList]), .write 0 ["a2".toList] none]).2
+      = [.print "a1".toList, .print "b1".toList, .up 1, .eraseBelow, .print "a2".toList, .print "b1".toList] := by
+  decide
 
 /-- what the order "ask the gate, THEN record" is for: had the suppressed line been recorded (content and row
 counter as after an ordinary write, nothing on the stream), the next write of the older section would move up
